@@ -102,3 +102,33 @@ func PickSlots(a []*Slot, idx []int, out []*Slot) []*Slot {
 	}
 	return out
 }
+
+// Initialized is an independent "all required fields present" walk through
+// protoreflect (the reference for CheckInitialized-related clauses).
+func Initialized(m protoreflect.Message) bool {
+	md := m.Descriptor()
+	nums := md.RequiredNumbers()
+	for i := 0; i < nums.Len(); i++ {
+		if !m.Has(md.Fields().ByNumber(nums.Get(i))) {
+			return false
+		}
+	}
+	ok := true
+	m.Range(func(fd protoreflect.FieldDescriptor, v protoreflect.Value) bool {
+		switch {
+		case fd.IsList() && fd.Message() != nil:
+			for i := 0; i < v.List().Len() && ok; i++ {
+				ok = Initialized(v.List().Get(i).Message())
+			}
+		case fd.IsMap() && fd.MapValue().Message() != nil:
+			v.Map().Range(func(_ protoreflect.MapKey, mv protoreflect.Value) bool {
+				ok = Initialized(mv.Message())
+				return ok
+			})
+		case fd.Message() != nil && !fd.IsMap() && !fd.IsList():
+			ok = Initialized(v.Message())
+		}
+		return ok
+	})
+	return ok
+}
